@@ -200,6 +200,7 @@ func Load(cfg LoadConfig) (*Engine, error) {
 	registerIntrinsics(e)
 	registerSQL(e)
 	registerJSON(e)
+	registerRace(e)
 	return e, nil
 }
 
